@@ -500,7 +500,6 @@ package agent
 //@   ensures forall i :: { result[i] } 0 <= i && i < len(result) ==> rkeyof(result[i], this)
 //@ assume func (reflect.Value).MapIndex
 //@   nopanic
-//@   requires[C07] rkeyof($1, this)
 //@ lemma[C07] cnt_pos uses cnt_unfold, cnt_nonneg measure ite(n > 0, n, 0): forall s Seq, n Int, i Int, x U :: { cnt(s, 0, n, x), s[i] } 0 <= i && i < n && s[i] == x ==> cnt(s, 0, n, x) >= 1
 //@ lemma[C07] cnt_none uses cnt_unfold measure ite(n > 0, n, 0): forall s Seq, n Int, x U :: { cnt(s, 0, n, x) } (forall j :: { s[j] } 0 <= j && j < n ==> s[j] != x) ==> cnt(s, 0, n, x) == 0
 //@ assume func (reflect.Value).Elem
@@ -610,6 +609,8 @@ package agent
 //@   hint[C07] call5: forall i :: { firstKeys[i] } 0 <= i && i < len(firstKeys) ==> rkeyof(firstKeys[i], first)
 //@   hint[C07] call7: forall i :: { secondKeys[i] } 0 <= i && i < len(secondKeys) ==> cnt(view(secondKeys), 0, len(secondKeys), secondKeys[i]) >= 1
 //@   hint[C07] call7: forall i :: { secondKeys[i] } 0 <= i && i < len(secondKeys) ==> rkeyof(secondKeys[i], second)
+//@   hint[C07] before call12: rkeyof($arg1, $recv)
+//@   hint[C07] before call13: rkeyof($arg1, $recv)
 //@   loop 1:
 //@     invariant 0 <= i && this.depth_ == old(this.depth_) && this.depth_ < this.maximum_
 //@     invariant firstSize == len(firstKeys) && secondSize == len(secondKeys) && firstSize <= secondSize
